@@ -1060,3 +1060,499 @@ Proof.
     + contradiction.
   - destruct (preprocess_failure_surfaces gf o cfg sched1 sched2 recs e0 Hs) as [e E]. rewrite E. reflexivity.
 Qed.
+
+(* ================================================================================================
+   the timeout clause: calls with a duration class (slow = exceeds the timeout)
+   ================================================================================================ *)
+
+(* a chunk that reaches a slow call has not reported: as long as it is queued or running, or once it is lost,
+   the result cannot be ready.  c0 is queued/running and nothing is lost yet, or something is lost *)
+Definition blocked {B} (c0 : Z) (st : pstate B) : Prop :=
+  (In c0 (active st) /\ zlen (active st) <= nleft st) \/ zlen (active st) + 1 <= nleft st.
+
+Lemma blocked_nleft : forall {B} c0 (st : pstate B), blocked c0 st -> 1 <= nleft st.
+Proof.
+  intros B c0 st [[Hin Hle]|Hle].
+  - unfold zlen in *. destruct (active st); [destruct Hin|]. cbn [length] in Hle. lia.
+  - unfold zlen in *. lia.
+Qed.
+
+Lemma zlen_app : forall {X} (a b : list X), zlen (a ++ b) = zlen a + zlen b.
+Proof. intros X a b. unfold zlen. rewrite app_length. lia. Qed.
+
+Lemma step_blocked : forall {A B} (f : A -> res B) procs cs c0 ev (st : pstate B),
+  blocked c0 st ->
+  (forall w, ev = Finish w -> lookup_w w (runn st) <> Some c0) ->
+  blocked c0 (step f procs cs ev st).
+Proof.
+  intros A B f procs cs c0 ev st Hb Hnf. destruct ev as [w|w|w|]; cbn [step].
+  - (* Start *)
+    destruct ((0 <=? w) && (w <? procs)); [|exact Hb].
+    destruct (lookup_w w (runn st)) eqn:Hl; [exact Hb|]. destruct (pend st) as [|c p'] eqn:Hp; [exact Hb|].
+    unfold blocked, active, with_queues in *. cbn [pend runn nleft map snd]. rewrite Hp in Hb.
+    assert (Hlen : zlen (p' ++ c :: map snd (runn st)) = zlen ((c :: p') ++ map snd (runn st))).
+    { unfold zlen. rewrite !app_length. cbn [length]. rewrite Nat.add_succ_r. reflexivity. }
+    rewrite Hlen. destruct Hb as [[Hin Hle]|Hle]; [left|right; exact Hle].
+    split; [|exact Hle]. apply in_app_iff in Hin. apply in_app_iff.
+    destruct Hin as [[E|Hin]|Hin].
+    + right. left. exact E.
+    + left. exact Hin.
+    + right. right. exact Hin.
+  - (* Finish *)
+    destruct (lookup_w w (runn st)) as [c|] eqn:Hl; [|exact Hb].
+    assert (Hc : c <> c0). { intros E. subst c. exact (Hnf w eq_refl Hl). }
+    destruct (remove_w_split w (runn st) c Hl) as [r1 [r2 [E1 E2]]].
+    match goal with |- blocked _ (set_result ?c ?r ?s) =>
+      destruct (set_result_queues c r s) as [F1 [F2 [F3 _]]] end.
+    unfold blocked, active in *. rewrite F1, F2, F3. unfold with_queues. cbn [pend runn nleft].
+    rewrite E2. rewrite E1 in Hb. rewrite map_app in *. cbn [map snd] in Hb.
+    rewrite !zlen_app in *. unfold zlen in Hb at 3 6. cbn [length] in Hb.
+    destruct Hb as [[Hin Hle]|Hle]; [left|right].
+    + split.
+      * apply in_app_iff in Hin. apply in_app_iff. destruct Hin as [Hin|Hin]; [left; exact Hin|right].
+        apply in_app_iff in Hin. apply in_app_iff. destruct Hin as [Hin|[E|Hin]].
+        -- left. exact Hin.
+        -- exfalso. exact (Hc E).
+        -- right. exact Hin.
+      * unfold zlen in *. lia.
+    + unfold zlen in *. lia.
+  - (* Crash: the chunk is lost *)
+    destruct (lookup_w w (runn st)) as [c|] eqn:Hl; [|exact Hb].
+    destruct (remove_w_split w (runn st) c Hl) as [r1 [r2 [E1 E2]]].
+    unfold blocked, active, with_queues in *. cbn [pend runn nleft].
+    rewrite E2. rewrite E1 in Hb. rewrite map_app in *. cbn [map snd] in Hb.
+    rewrite !zlen_app in *. unfold zlen in Hb at 3 6. cbn [length] in Hb.
+    right. destruct Hb as [[_ Hle]|Hle]; unfold zlen in *; lia.
+  - exact Hb.
+Qed.
+
+(* while such a chunk is unreported, get() can only leave through the timeout (or not at all) *)
+Lemma blocked_get : forall {A B} (f : A -> res B) slow procs cs t c0 sched (st : pstate B),
+  slow_chunk f slow cs c0 = true -> blocked c0 st ->
+  no_early_finish f slow procs cs t sched st = true ->
+  pool_get f procs cs (Some t) sched st = Err E_Runtime \/ pool_get f procs cs (Some t) sched st = Err E_Fuel.
+Proof.
+  intros A B f slow procs cs t c0 sched. induction sched as [|ev s IH]; intros st Hs Hb Hn; cbn [pool_get].
+  - pose proof (blocked_nleft c0 st Hb) as H1. destruct (nleft st =? 0) eqn:H0; [lia|].
+    destruct (expired (Some t) (ticks st)); [left|right]; reflexivity.
+  - pose proof (blocked_nleft c0 st Hb) as H1. destruct (nleft st =? 0) eqn:H0; [lia|].
+    destruct (expired (Some t) (ticks st)) eqn:He; [left; reflexivity|].
+    cbn [no_early_finish] in Hn. unfold get_returned in Hn. cbn [expired] in He. rewrite H0, He in Hn. cbn [orb] in Hn.
+    apply andb_prop in Hn. destruct Hn as [Hhead Htail].
+    apply IH; [exact Hs| |exact Htail].
+    apply step_blocked; [exact Hb|].
+    intros w Ew Hl. subst ev. rewrite Hl, Hs in Hhead. rewrite Hhead in He. discriminate.
+Qed.
+
+Lemma chunk_slow_reached : forall {A B} (f : A -> res B) slow (chunk : list A) a,
+  (forall a', In a' chunk -> exists r, f a' = Ok r) -> In a chunk -> slow a = true ->
+  chunk_slow f slow chunk = true.
+Proof.
+  intros A B f slow chunk a. induction chunk as [|x chunk IH]; intros Hok Hin Hs; [destruct Hin|].
+  cbn [chunk_slow]. destruct Hin as [E|Hin].
+  - subst x. rewrite Hs. reflexivity.
+  - destruct (Hok x (or_introl eq_refl)) as [r Hr]. rewrite Hr.
+    rewrite IH; [apply orb_true_r| |exact Hin|exact Hs].
+    intros a' Ha'. apply Hok. right. exact Ha'.
+Qed.
+
+Lemma chunk_slow_In : forall {A B} (f : A -> res B) slow (chunk : list A),
+  chunk_slow f slow chunk = true -> exists a, In a chunk /\ slow a = true.
+Proof.
+  intros A B f slow chunk. induction chunk as [|x chunk IH]; intros H; [discriminate|].
+  cbn [chunk_slow] in H. destruct (slow x) eqn:Hx.
+  - exists x. split; [left; reflexivity|exact Hx].
+  - cbn [orb] in H. destruct (f x) as [y|k]; [|discriminate]. destruct (IH H) as [a [Ha Hs]].
+    exists a. split; [right; exact Ha|exact Hs].
+Qed.
+
+Lemma init_blocked : forall {A} (B : Type) (cs : list (list A)) (c : nat),
+  (c < length cs)%nat -> blocked (Z.of_nat c) (init_state B cs).
+Proof.
+  intros A B cs c Hc. left. unfold active, init_state. cbn [pend runn nleft map]. rewrite app_nil_r. split.
+  - apply zrange_In. lia.
+  - unfold zlen. assert (Hl : forall n from, length (zrange from n) = n).
+    { induction n as [|n IHn]; intros from; [reflexivity|]. cbn [zrange length]. rewrite IHn. reflexivity. }
+    rewrite Hl. lia.
+Qed.
+
+Lemma mapM_Ok_all : forall {A B} (f : A -> res B) (l : list A) rs,
+  mapM f l = Ok rs -> forall a, In a l -> exists r, f a = Ok r.
+Proof.
+  intros A B f l rs H a Ha. destruct (In_nth_error l a Ha) as [i Hi].
+  destruct (mapM_Ok_nth f l rs H i a Hi) as [r [_ Hr]]. exists r. exact Hr.
+Qed.
+
+Lemma In_raises_mapM_Err : forall {A B} (f : A -> res B) (l : list A) a e,
+  In a l -> f a = Err e -> exists e', mapM f l = Err e'.
+Proof.
+  intros A B f l a e Ha Hf. destruct (mapM f l) as [rs|e'] eqn:H; [|exists e'; reflexivity].
+  destruct (mapM_Ok_all f l rs H a Ha) as [r Hr]. rewrite Hr in Hf. discriminate.
+Qed.
+
+(* the pool: a call exceeding the timeout, no call raising -> the timeout error (or no return at all),
+   for every worker count >= 1 and every schedule that does not let a slow chunk report early *)
+Lemma pool_map_timeout_surfaces : forall {A B} (f : A -> res B) slow procs t sched (args : list A) rs,
+  1 <= procs -> respects_durations f slow procs (Some t) sched args = true ->
+  existsb slow args = true -> sequential f args = Ok rs ->
+  pool_map f procs (Some t) sched args = Err E_Runtime \/ pool_map f procs (Some t) sched args = Err E_Fuel.
+Proof.
+  intros A B f slow procs t sched args rs Hp Hr Hs Hseq. unfold pool_map.
+  destruct (procs <? 1) eqn:Hlt; [lia|]. cbn zeta. cbn [respects_durations] in Hr.
+  set (cs := make_chunks procs args) in *.
+  apply existsb_exists in Hs. destruct Hs as [a [Ha Hsa]].
+  assert (Hcat : concat cs = args) by (apply make_chunks_concat; exact Hp).
+  rewrite <- Hcat in Ha. apply in_concat in Ha. destruct Ha as [chunk [Hch Hach]].
+  destruct (In_nth cs chunk [] Hch) as [c [Hc Hnth]].
+  apply (blocked_get f slow procs cs t (Z.of_nat c)); [| |exact Hr].
+  - unfold slow_chunk. rewrite Nat2Z.id, Hnth.
+    apply (chunk_slow_reached f slow chunk a); [|exact Hach|exact Hsa].
+    intros a' Ha'. apply (mapM_Ok_all f args rs Hseq). rewrite <- Hcat. apply in_concat.
+    exists chunk. split; [exact Hch|exact Ha'].
+  - apply init_blocked. exact Hc.
+Qed.
+
+(* a call exceeding the timeout always gives an error - never a list - for every worker count *)
+Lemma pool_map_timeout_is_error : forall {A B} (f : A -> res B) slow procs t sched (args : list A),
+  respects_durations f slow procs (Some t) sched args = true -> existsb slow args = true ->
+  exists e, pool_map f procs (Some t) sched args = Err e.
+Proof.
+  intros A B f slow procs t sched args Hr Hs.
+  destruct (pool_map f procs (Some t) sched args) as [out|e] eqn:Hp; [|exists e; reflexivity].
+  exfalso. pose proof (pool_map_sound f procs (Some t) sched args out Hp) as Hseq.
+  assert (Hp1 : 1 <= procs).
+  { unfold pool_map in Hp. destruct (procs <? 1) eqn:Hlt; [discriminate|lia]. }
+  destruct (pool_map_timeout_surfaces f slow procs t sched args out Hp1 Hr Hs Hseq) as [H|H];
+    rewrite H in Hp; discriminate.
+Qed.
+
+Lemma execute_timeout_surfaces : forall {A B} (f : A -> res B) slow cfg cpus t sched (cmds : list A),
+  respects_durations f slow (effective_cpus cfg cpus) (Some t) sched cmds = true -> existsb slow cmds = true ->
+  exists e, parallel_execute f cfg cpus (Some t) sched cmds = Err e.
+Proof.
+  intros A B f slow cfg cpus t sched cmds Hr Hs. unfold parallel_execute.
+  exact (pool_map_timeout_is_error f slow _ t sched cmds Hr Hs).
+Qed.
+
+(* ... and it is the timeout error when no call raises *)
+Lemma execute_timeout_kind : forall {A B} (f : A -> res B) slow cfg cpus t sched (cmds : list A) rs,
+  1 <= effective_cpus cfg cpus ->
+  respects_durations f slow (effective_cpus cfg cpus) (Some t) sched cmds = true -> existsb slow cmds = true ->
+  sequential f cmds = Ok rs ->
+  parallel_execute f cfg cpus (Some t) sched cmds = Err E_Runtime \/
+  parallel_execute f cfg cpus (Some t) sched cmds = Err E_Fuel.
+Proof.
+  intros A B f slow cfg cpus t sched cmds rs Hc Hr Hs Hseq. unfold parallel_execute.
+  exact (pool_map_timeout_surfaces f slow _ t sched cmds rs Hc Hr Hs Hseq).
+Qed.
+
+(* parallel_function: the same whenever the pool is used (effective cpus <> 1) *)
+Lemma function_timeout_surfaces_partial : forall {A B} (f : A -> res B) slow cfg cpus t sched (args : list A),
+  effective_cpus cfg cpus <> 1 ->
+  respects_durations f slow (effective_cpus cfg cpus) (Some t) sched args = true -> existsb slow args = true ->
+  exists e, parallel_function f cfg cpus (Some t) sched args = Err e.
+Proof.
+  intros A B f slow cfg cpus t sched args H1 Hr Hs. unfold parallel_function.
+  destruct (effective_cpus cfg cpus =? 1) eqn:E; [lia|].
+  exact (pool_map_timeout_is_error f slow _ t sched args Hr Hs).
+Qed.
+
+(* ---------- no call exceeds the timeout: under a timely schedule the timeout plays no role ---------- *)
+Lemma step_ticks : forall {A B} (f : A -> res B) procs cs ev (st : pstate B),
+  ev <> Tick -> ticks (step f procs cs ev st) = ticks st.
+Proof.
+  intros A B f procs cs ev st Hne. destruct ev as [w|w|w|]; cbn [step].
+  - destruct ((0 <=? w) && (w <? procs)); [|reflexivity].
+    destruct (lookup_w w (runn st)); [reflexivity|]. destruct (pend st); reflexivity.
+  - destruct (lookup_w w (runn st)); [|reflexivity].
+    match goal with |- ticks (set_result ?c ?r ?s) = _ =>
+      destruct (set_result_queues c r s) as [_ [_ [_ F4]]]; rewrite F4 end. reflexivity.
+  - destruct (lookup_w w (runn st)); reflexivity.
+  - contradiction.
+Qed.
+
+Lemma pool_get_timeout_irrelevant : forall {A B} (f : A -> res B) slow procs cs t sched (st : pstate B),
+  1 <= t -> ticks st = 0 -> (forall c, slow_chunk f slow cs c = false) ->
+  no_idle_tick f slow procs cs t sched st = true ->
+  pool_get f procs cs (Some t) sched st = pool_get f procs cs None sched st.
+Proof.
+  intros A B f slow procs cs t sched. induction sched as [|ev s IH]; intros st Ht H0 Hns Hn; cbn [pool_get].
+  - rewrite H0. cbn [expired]. destruct (t <=? 0) eqn:E; [lia|]. reflexivity.
+  - rewrite H0. cbn [expired]. destruct (t <=? 0) eqn:E; [lia|].
+    destruct (nleft st =? 0) eqn:Hz; [reflexivity|].
+    cbn [no_idle_tick] in Hn. unfold get_returned in Hn. rewrite Hz, H0, E in Hn. cbn [orb] in Hn.
+    apply andb_prop in Hn. destruct Hn as [Hhead Htail].
+    apply IH; [exact Ht| |exact Hns|exact Htail].
+    destruct ev as [w|w|w|]; try (rewrite step_ticks; [exact H0|discriminate]).
+    exfalso. apply existsb_exists in Hhead. destruct Hhead as [wc [_ Hwc]]. rewrite Hns in Hwc. discriminate.
+Qed.
+
+Lemma no_slow_chunks : forall {A B} (f : A -> res B) slow procs (args : list A),
+  1 <= procs -> existsb slow args = false -> forall c, slow_chunk f slow (make_chunks procs args) c = false.
+Proof.
+  intros A B f slow procs args Hp Hs c. unfold slow_chunk.
+  destruct (chunk_slow f slow (nth (Z.to_nat c) (make_chunks procs args) [])) eqn:E; [|reflexivity].
+  exfalso. apply chunk_slow_In in E. destruct E as [a [Ha Hsa]].
+  assert (Hin : In a args).
+  { rewrite <- (make_chunks_concat procs args Hp). apply in_concat.
+    exists (nth (Z.to_nat c) (make_chunks procs args) []). split; [|exact Ha].
+    destruct (nth_in_or_default (Z.to_nat c) (make_chunks procs args) []) as [H|H]; [exact H|].
+    rewrite H in Ha. destruct Ha. }
+  assert (existsb slow args = true) by (apply existsb_exists; exists a; split; assumption).
+  rewrite Hs in H. discriminate.
+Qed.
+
+Lemma pool_map_timeout_irrelevant : forall {A B} (f : A -> res B) slow procs t sched (args : list A),
+  1 <= t -> existsb slow args = false -> timely f slow procs (Some t) sched args = true ->
+  pool_map f procs (Some t) sched args = pool_map f procs None sched args.
+Proof.
+  intros A B f slow procs t sched args Ht Hs Htm. unfold pool_map.
+  destruct (procs <? 1) eqn:Hlt; [reflexivity|]. cbn zeta. cbn [timely] in Htm.
+  apply andb_prop in Htm. destruct Htm as [_ Hidle].
+  apply (pool_get_timeout_irrelevant f slow); [exact Ht|reflexivity| |exact Hidle].
+  apply no_slow_chunks; [lia|exact Hs].
+Qed.
+
+(* ---------- the pool equals the dispatcher's sequential specification, for every worker count ---------- *)
+Lemma timely_respects : forall {A B} (f : A -> res B) slow procs timeout sched (args : list A),
+  timely f slow procs timeout sched args = true -> respects_durations f slow procs timeout sched args = true.
+Proof.
+  intros A B f slow procs timeout sched args H. destruct timeout as [t|]; [|reflexivity].
+  cbn [timely] in H. apply andb_prop in H. destruct H as [H _]. exact H.
+Qed.
+
+Lemma pool_map_no_timeout_outcome : forall {A B} (f : A -> res B) procs sched (args : list A),
+  1 <= procs ->
+  pool_map f procs None sched args = Err E_Fuel \/
+  same_outcome (pool_map f procs None sched args) (sequential f args).
+Proof.
+  intros A B f procs sched args Hp.
+  destruct (pool_map f procs None sched args) as [out|e] eqn:H.
+  - right. unfold sequential. rewrite (pool_map_sound f procs None sched args out H). reflexivity.
+  - apply pool_map_err_kind in H. destruct H as [[_ H]|[[_ H]|[H|[a [Ha Hf]]]]].
+    + lia.
+    + exfalso. apply H. reflexivity.
+    + left. subst e. reflexivity.
+    + right. unfold sequential. destruct (In_raises_mapM_Err f args a e Ha Hf) as [e' He']. rewrite He'. exact I.
+Qed.
+
+Lemma pool_map_equals_dispatch_spec : forall {A B} (f : A -> res B) slow procs timeout sched (args : list A),
+  1 <= procs -> timeout_pos timeout = true -> timely f slow procs timeout sched args = true ->
+  pool_map f procs timeout sched args = Err E_Fuel \/
+  same_outcome (pool_map f procs timeout sched args) (dispatch_spec f slow timeout args).
+Proof.
+  intros A B f slow procs timeout sched args Hp Ht Htm. unfold dispatch_spec.
+  destruct timeout as [t|]; cbn [any_exceeds].
+  - destruct (existsb slow args) eqn:Hs.
+    + right. destruct (pool_map_timeout_is_error f slow procs t sched args (timely_respects _ _ _ _ _ _ Htm) Hs) as [e He].
+      rewrite He. exact I.
+    + cbn [timeout_pos] in Ht. rewrite (pool_map_timeout_irrelevant f slow procs t sched args); [|lia|exact Hs|exact Htm].
+      apply pool_map_no_timeout_outcome. exact Hp.
+  - apply pool_map_no_timeout_outcome. exact Hp.
+Qed.
+
+Lemma execute_equals_dispatch_spec : forall {A B} (f : A -> res B) slow cfg cpus timeout sched (cmds : list A),
+  1 <= effective_cpus cfg cpus -> timeout_pos timeout = true ->
+  timely f slow (effective_cpus cfg cpus) timeout sched cmds = true ->
+  parallel_execute f cfg cpus timeout sched cmds = Err E_Fuel \/
+  same_outcome (parallel_execute f cfg cpus timeout sched cmds) (dispatch_spec f slow timeout cmds).
+Proof.
+  intros A B f slow cfg cpus timeout sched cmds Hc Ht Htm. unfold parallel_execute.
+  exact (pool_map_equals_dispatch_spec f slow _ timeout sched cmds Hc Ht Htm).
+Qed.
+
+(* parallel_function: guarded - with one worker only when no call exceeds the timeout (finding C18-K2) *)
+Lemma function_equals_dispatch_spec_partial : forall {A B} (f : A -> res B) slow cfg cpus timeout sched (args : list A),
+  1 <= effective_cpus cfg cpus -> timeout_pos timeout = true ->
+  timely f slow (effective_cpus cfg cpus) timeout sched args = true ->
+  effective_cpus cfg cpus <> 1 \/ any_exceeds slow timeout args = false ->
+  parallel_function f cfg cpus timeout sched args = Err E_Fuel \/
+  same_outcome (parallel_function f cfg cpus timeout sched args) (dispatch_spec f slow timeout args).
+Proof.
+  intros A B f slow cfg cpus timeout sched args Hc Ht Htm Hg. unfold parallel_function.
+  destruct (effective_cpus cfg cpus =? 1) eqn:E.
+  - destruct Hg as [Hg|Hg]; [lia|]. right. unfold dispatch_spec. rewrite Hg. unfold sequential.
+    destruct (mapM f args); [reflexivity|exact I].
+  - exact (pool_map_equals_dispatch_spec f slow _ timeout sched args Hc Ht Htm).
+Qed.
+
+(* the outcome is the same for every two worker counts (up to which exception surfaces) *)
+Lemma same_outcome_trans_sym : forall {X} (a b c : res X), same_outcome a c -> same_outcome b c -> same_outcome a b.
+Proof.
+  intros X [x|e] [y|e'] [z|e'']; cbn; intros H1 H2; try contradiction; try exact I. congruence.
+Qed.
+
+Lemma execute_workers_irrelevant : forall {A B} (f : A -> res B) slow cfg1 cpus1 cfg2 cpus2 timeout sched1 sched2 (cmds : list A),
+  1 <= effective_cpus cfg1 cpus1 -> 1 <= effective_cpus cfg2 cpus2 -> timeout_pos timeout = true ->
+  timely f slow (effective_cpus cfg1 cpus1) timeout sched1 cmds = true ->
+  timely f slow (effective_cpus cfg2 cpus2) timeout sched2 cmds = true ->
+  parallel_execute f cfg1 cpus1 timeout sched1 cmds <> Err E_Fuel ->
+  parallel_execute f cfg2 cpus2 timeout sched2 cmds <> Err E_Fuel ->
+  same_outcome (parallel_execute f cfg1 cpus1 timeout sched1 cmds) (parallel_execute f cfg2 cpus2 timeout sched2 cmds).
+Proof.
+  intros A B f slow cfg1 cpus1 cfg2 cpus2 timeout sched1 sched2 cmds H1 H2 Ht T1 T2 N1 N2.
+  destruct (execute_equals_dispatch_spec f slow cfg1 cpus1 timeout sched1 cmds H1 Ht T1) as [F|S1]; [contradiction|].
+  destruct (execute_equals_dispatch_spec f slow cfg2 cpus2 timeout sched2 cmds H2 Ht T2) as [F|S2]; [contradiction|].
+  exact (same_outcome_trans_sym _ _ _ S1 S2).
+Qed.
+
+(* a schedule without ticks is timely for a batch without slow calls; the completing schedule of every worker
+   count is one: with a timeout of at least one tick the batch still comes back *)
+Lemma tickless_no_idle : forall {A B} (f : A -> res B) slow procs cs t sched (st : pstate B),
+  (forall ev, In ev sched -> ev <> Tick) -> no_idle_tick f slow procs cs t sched st = true.
+Proof.
+  intros A B f slow procs cs t sched. induction sched as [|ev s IH]; intros st H; [reflexivity|].
+  cbn [no_idle_tick]. destruct (get_returned t st); [reflexivity|]. rewrite IH; [|intros e He; apply H; right; exact He].
+  destruct ev; try reflexivity. exfalso. exact (H Tick (or_introl eq_refl) eq_refl).
+Qed.
+
+Lemma no_slow_no_early : forall {A B} (f : A -> res B) slow procs cs t sched (st : pstate B),
+  (forall c, slow_chunk f slow cs c = false) -> no_early_finish f slow procs cs t sched st = true.
+Proof.
+  intros A B f slow procs cs t sched. induction sched as [|ev s IH]; intros st H; [reflexivity|].
+  cbn [no_early_finish]. destruct (get_returned t st); [reflexivity|]. rewrite IH; [|exact H].
+  destruct ev as [w|w|w|]; try reflexivity. destruct (lookup_w w (runn st)); [|reflexivity]. rewrite H. reflexivity.
+Qed.
+
+Lemma rounds_tickless : forall j ev, In ev (rounds j) -> ev <> Tick.
+Proof.
+  induction j as [|j IH]; intros ev H; [destruct H|].
+  cbn [rounds] in H. destruct H as [E|[E|H]]; [subst ev; discriminate|subst ev; discriminate|exact (IH ev H)].
+Qed.
+
+Lemma timely_completing_schedule_exists : forall {A B} (f : A -> res B) slow cfg cpus t (cmds : list A) rs,
+  1 <= effective_cpus cfg cpus -> 1 <= t -> existsb slow cmds = false -> sequential f cmds = Ok rs ->
+  exists sched, timely f slow (effective_cpus cfg cpus) (Some t) sched cmds = true /\
+                parallel_execute f cfg cpus (Some t) sched cmds = Ok rs.
+Proof.
+  intros A B f slow cfg cpus t cmds rs Hc Ht Hs Hseq.
+  set (procs := effective_cpus cfg cpus) in *.
+  exists (sequential_schedule procs cmds).
+  assert (Htm : timely f slow procs (Some t) (sequential_schedule procs cmds) cmds = true).
+  { cbn [timely]. apply andb_true_intro. split.
+    - apply no_slow_no_early. apply no_slow_chunks; [exact Hc|exact Hs].
+    - apply tickless_no_idle. unfold sequential_schedule. apply rounds_tickless. }
+  split; [exact Htm|]. unfold parallel_execute. fold procs.
+  rewrite (pool_map_timeout_irrelevant f slow procs t _ cmds Ht Hs Htm).
+  apply pool_map_completing_schedule; [exact Hc|exact Hseq].
+Qed.
+
+(* ---------- the run-time specification with duration classes ---------- *)
+Lemma raiser_seq_err : forall (jobs : list (bool * res Z)) e,
+  existsb (raises_kind e) jobs = true -> exists e', sequential snd jobs = Err e'.
+Proof.
+  intros jobs e H. apply existsb_exists in H. destruct H as [j [Hj Hr]]. unfold raises_kind in Hr.
+  destruct (snd j) as [v|k] eqn:Hs; [discriminate|].
+  unfold sequential. exact (In_raises_mapM_Err snd jobs j k Hj Hs).
+Qed.
+
+Lemma tspec_ok_sound : forall cfg cpus timeout (jobs : list (bool * res Z)) out,
+  1 <= effective_cpus cfg cpus -> tspec_ok cfg cpus timeout jobs out = true ->
+  same_outcome out (dispatch_spec snd fst timeout jobs).
+Proof.
+  intros cfg cpus timeout jobs out Hc H. unfold tspec_ok in H.
+  destruct (effective_cpus cfg cpus <? 1) eqn:Hlt; [lia|].
+  destruct out as [vs|e].
+  - destruct (dispatch_spec snd fst timeout jobs) as [ws|e]; [|discriminate].
+    cbn. exact (list_eqb_eq vs ws H).
+  - unfold dispatch_spec. apply orb_true_iff in H. destruct H as [H|H].
+    + apply andb_prop in H. destruct H as [H _]. rewrite H. exact I.
+    + destruct (any_exceeds fst timeout jobs); [exact I|].
+      destruct (raiser_seq_err jobs e H) as [e' He']. rewrite He'. exact I.
+Qed.
+
+Lemma tspec_ok_list_sound : forall cfg cpus timeout (jobs : list (bool * res Z)) vs,
+  tspec_ok cfg cpus timeout jobs (Ok vs) = true ->
+  any_exceeds fst timeout jobs = false /\ sequential snd jobs = Ok vs.
+Proof.
+  intros cfg cpus timeout jobs vs H. unfold tspec_ok in H.
+  destruct (effective_cpus cfg cpus <? 1); [discriminate|]. unfold dispatch_spec in H.
+  destruct (any_exceeds fst timeout jobs); [discriminate|]. split; [reflexivity|].
+  destruct (sequential snd jobs) as [ws|e]; [|discriminate]. rewrite (list_eqb_eq vs ws H). reflexivity.
+Qed.
+
+Lemma raiser_exists : forall (jobs : list (bool * res Z)) a e,
+  In a jobs -> snd a = Err e -> existsb (raises_kind e) jobs = true.
+Proof.
+  intros jobs a e Ha Hs. apply existsb_exists. exists a. split; [exact Ha|].
+  unfold raises_kind. rewrite Hs. apply Z.eqb_refl.
+Qed.
+
+Lemma pool_map_meets_tspec : forall cfg cpus timeout sched (jobs : list (bool * res Z)),
+  timeout_pos timeout = true ->
+  timely snd fst (effective_cpus cfg cpus) timeout sched jobs = true ->
+  pool_map snd (effective_cpus cfg cpus) timeout sched jobs <> Err E_Fuel ->
+  tspec_ok cfg cpus timeout jobs (pool_map snd (effective_cpus cfg cpus) timeout sched jobs) = true.
+Proof.
+  intros cfg cpus timeout sched jobs Ht Htm Hnf. unfold tspec_ok.
+  set (procs := effective_cpus cfg cpus) in *.
+  destruct (procs <? 1) eqn:Hlt.
+  - unfold pool_map. rewrite Hlt. reflexivity.
+  - destruct (pool_map snd procs timeout sched jobs) as [vs|e] eqn:Hp.
+    + pose proof (pool_map_sound snd procs timeout sched jobs vs Hp) as Hseq.
+      unfold dispatch_spec. destruct (any_exceeds fst timeout jobs) eqn:Hex.
+      * exfalso. destruct timeout as [t|]; [|discriminate]. cbn [any_exceeds] in Hex.
+        destruct (pool_map_timeout_is_error snd fst procs t sched jobs (timely_respects _ _ _ _ _ _ Htm) Hex) as [e He].
+        rewrite He in Hp. discriminate.
+      * unfold sequential. rewrite Hseq. apply list_eqb_refl.
+    + destruct (any_exceeds fst timeout jobs) eqn:Hex.
+      * pose proof Hp as Hk. apply pool_map_err_kind in Hk. destruct Hk as [[_ H]|[[H _]|[H|[a [Ha Hf]]]]].
+        -- lia.
+        -- subst e. reflexivity.
+        -- subst e. contradiction.
+        -- rewrite (raiser_exists jobs a e Ha Hf). apply orb_true_r.
+      * cbn [andb orb].
+        assert (Hn : pool_map snd procs None sched jobs = Err e).
+        { destruct timeout as [t|]; [|exact Hp]. cbn [any_exceeds] in Hex. cbn [timeout_pos] in Ht.
+          rewrite <- (pool_map_timeout_irrelevant snd fst procs t sched jobs); [exact Hp|lia|exact Hex|exact Htm]. }
+        apply pool_map_err_kind in Hn. destruct Hn as [[_ H]|[[_ H]|[H|[a [Ha Hf]]]]].
+        -- lia.
+        -- exfalso. apply H. reflexivity.
+        -- subst e. contradiction.
+        -- exact (raiser_exists jobs a e Ha Hf).
+Qed.
+
+Lemma execute_meets_tspec : forall cfg cpus timeout sched (jobs : list (bool * res Z)),
+  timeout_pos timeout = true ->
+  timely snd fst (effective_cpus cfg cpus) timeout sched jobs = true ->
+  parallel_execute snd cfg cpus timeout sched jobs <> Err E_Fuel ->
+  tspec_ok cfg cpus timeout jobs (parallel_execute snd cfg cpus timeout sched jobs) = true.
+Proof. intros cfg cpus timeout sched jobs. unfold parallel_execute. apply pool_map_meets_tspec. Qed.
+
+Lemma function_meets_tspec_partial : forall cfg cpus timeout sched (jobs : list (bool * res Z)),
+  timeout_pos timeout = true ->
+  timely snd fst (effective_cpus cfg cpus) timeout sched jobs = true ->
+  finding_K2 cfg cpus timeout jobs = false ->
+  parallel_function snd cfg cpus timeout sched jobs <> Err E_Fuel ->
+  tspec_ok cfg cpus timeout jobs (parallel_function snd cfg cpus timeout sched jobs) = true.
+Proof.
+  intros cfg cpus timeout sched jobs Ht Htm Hg. unfold parallel_function.
+  destruct (effective_cpus cfg cpus =? 1) eqn:E; [|apply pool_map_meets_tspec; assumption].
+  intros _. unfold finding_K2 in Hg. rewrite E in Hg. cbn [andb] in Hg.
+  unfold tspec_ok. destruct (effective_cpus cfg cpus <? 1) eqn:Hlt; [lia|].
+  unfold dispatch_spec, sequential in *. destruct (mapM snd jobs) as [vs|e] eqn:Hm.
+  - rewrite andb_true_r in Hg. rewrite Hg. apply list_eqb_refl.
+  - apply mapM_Err_In in Hm. destruct Hm as [a [Ha Hf]]. rewrite (raiser_exists jobs a e Ha Hf). apply orb_true_r.
+Qed.
+
+(* the new specification is at least as strict as the earlier one (spec_ok, which knows no durations) *)
+Lemma mapM_map_id : forall (jobs : list (bool * res Z)),
+  mapM (fun t : res Z => t) (map snd jobs) = mapM snd jobs.
+Proof.
+  induction jobs as [|j jobs IH]; [reflexivity|]. cbn [map mapM]. rewrite IH. reflexivity.
+Qed.
+
+Lemma tspec_refines_spec : forall cfg cpus timeout (jobs : list (bool * res Z)) out,
+  tspec_ok cfg cpus timeout jobs out = true -> spec_ok cfg cpus timeout (map snd jobs) out = true.
+Proof.
+  intros cfg cpus timeout jobs out H. unfold spec_ok, sequential. rewrite mapM_map_id.
+  unfold tspec_ok in H. destruct (effective_cpus cfg cpus <? 1) eqn:Hlt.
+  - destruct out as [vs|e]; [discriminate|]. destruct (mapM snd jobs); [|reflexivity]. apply orb_true_r.
+  - destruct out as [vs|e].
+    + unfold dispatch_spec, sequential in H. destruct (any_exceeds fst timeout jobs); [discriminate|].
+      destruct (mapM snd jobs); [exact H|discriminate].
+    + destruct (mapM snd jobs) as [rs|e'] eqn:Hm; [|reflexivity].
+      apply orb_true_iff in H. destruct H as [H|H].
+      * apply andb_prop in H. destruct H as [Hex He]. destruct timeout; [|discriminate]. rewrite He. reflexivity.
+      * destruct (raiser_seq_err jobs e H) as [e'' He'']. unfold sequential in He''. rewrite Hm in He''. discriminate.
+Qed.
